@@ -79,7 +79,7 @@ func cmdFn(args []string) {
 			continue
 		}
 		t0 := time.Now()
-		u := v.verifyFunction(fn)
+		u := v.verifyIsolated(fn)
 		gen := time.Since(t0).Seconds()
 		for _, e := range u.errs {
 			fmt.Println("  ERROR:", e)
@@ -195,7 +195,7 @@ func cmdSweep(args []string) {
 	sort.Strings(names)
 	for _, n := range names {
 		fn := v.prog.byName[n]
-		u := v.verifyFunction(fn)
+		u := v.verifyIsolated(fn)
 		rs := v.dischargeAll(u.obls, *to, false, 16)
 		bad := 0
 		var failed []string
